@@ -1944,6 +1944,61 @@ fn clash_variants(n: &str) -> Vec<String> {
     v
 }
 
+/// many layers (glyph-less except the default one), the default layer at a chosen position of layercontents.plist;
+/// `nglyphs` bare glyphs in the default layer
+fn layers_desc(n_total: usize, pos: usize, nglyphs: usize, custom_default: bool) -> PV {
+    let mut layers: Vec<PV> = Vec::new();
+    for i in 0..n_total.saturating_sub(1) {
+        let mut l = d();
+        l.insert("name".into(), PV::S(format!("L{:02}", i)));
+        l.insert("dir".into(), PV::S(format!("glyphs.L{:02}_", i)));
+        l.insert("glyphs".into(), PV::A(Vec::new()));
+        layers.push(PV::D(l));
+    }
+    let mut dl = d();
+    dl.insert("name".into(), s(if custom_default { "foreground" } else { "public.default" }));
+    dl.insert("dir".into(), s("glyphs"));
+    let glyphs: Vec<PV> = (0..nglyphs)
+        .map(|i| {
+            let mut g = d();
+            g.insert("name".into(), PV::S(format!("g{:02}", i)));
+            g.insert("width".into(), PV::R(1.0 + i as f64));
+            g.insert("height".into(), PV::R(0.0));
+            PV::D(g)
+        })
+        .collect();
+    dl.insert("glyphs".into(), PV::A(glyphs));
+    layers.insert(pos.min(layers.len()), PV::D(dl));
+    let mut m = d();
+    m.insert("layers".into(), PV::A(layers));
+    PV::D(m)
+}
+
+/// layer counts around the thresholds of the standard sort / rotate implementations, each with the default layer
+/// first / second / in the middle / last (quick: two of the four positions, one of them never the first)
+fn layer_order_cases(rng: &mut Rng, thorough: bool) -> Vec<PV> {
+    let mut out = Vec::new();
+    for n in [1usize, 2, 3, 6, 21, 22, 23, 33, 34, 35, 41, 65] {
+        let mut positions = vec![0usize, 1, n / 2, n - 1];
+        positions.dedup();
+        positions.retain(|p| *p < n);
+        if !thorough && positions.len() > 2 {
+            let nonfirst: Vec<usize> = positions.iter().copied().filter(|p| *p != 0).collect();
+            let a = *rng.pick(&nonfirst);
+            let b = *rng.pick(&positions);
+            positions = if a == b { vec![a] } else { vec![a, b] };
+        }
+        for p in positions {
+            out.push(layers_desc(n, p, 1, rng.chance(1, 2)));
+        }
+    }
+    // many glyphs in one layer (contents.plist is a dictionary: no order is specified there, the set must be complete)
+    for g in if thorough { vec![20usize, 21, 22, 33, 64, 65] } else { vec![21usize, 64] } {
+        out.push(layers_desc(2, 1, g, false));
+    }
+    out
+}
+
 /// the independent writer may name the glif files by the UFO convention (capitals included) instead of `g<i>_.glif`
 fn with_conv_files(desc: &PV) -> PV {
     let mut top = desc.dict().clone();
@@ -2093,6 +2148,32 @@ fn run_les(cases: &[(String, u64, PV, Vec<String>)], scratch: &Path) -> Vec<Stri
                 continue;
             }
         }
+        if kind == "r" {
+            // written by norad (default layer first), then layercontents.plist re-ordered BY HAND into the order of the description
+            rm_rf(&s);
+            let file_order: Vec<String> = desc.get("layers").unwrap().arr().iter().map(|l| l.get("name").unwrap().str().to_string()).collect();
+            let mut first = desc.dict().clone();
+            let ls = desc.get("layers").unwrap().arr();
+            let mut reordered: Vec<PV> = ls.iter().filter(|l| l.get("dir").unwrap().str() == "glyphs").cloned().collect();
+            reordered.extend(ls.iter().filter(|l| l.get("dir").unwrap().str() != "glyphs").cloned());
+            first.insert("layers".into(), PV::A(reordered));
+            let r = guarded(|| -> Result<(), String> {
+                let font = font_of(&PV::D(first));
+                font.save(&s).map_err(|e| format!("{:?}", e))?;
+                let esc = |x: &str| x.replace('&', "&amp;").replace('<', "&lt;").replace('>', "&gt;");
+                let mut lc = String::from("<?xml version=\"1.0\" encoding=\"UTF-8\"?>\n<plist version=\"1.0\">\n<array>\n");
+                for n in &file_order {
+                    let dir = font.layers.get(n).ok_or("layer")?.path().to_string_lossy().to_string();
+                    lc.push_str(&format!("<array><string>{}</string><string>{}</string></array>\n", esc(n), esc(&dir)));
+                }
+                lc.push_str("</array>\n</plist>\n");
+                std::fs::write(s.join("layercontents.plist"), lc).map_err(|e| e.to_string())
+            });
+            if !matches!(r, Ok(Ok(()))) {
+                status.push(Err("src-save-err".to_string()));
+                continue;
+            }
+        }
         let mut font = match guarded(|| Font::load(&s)) {
             Ok(Ok(f)) => f,
             Ok(Err(e)) => {
@@ -2204,14 +2285,35 @@ pub fn gen(tier: &str, seed: u64, out: &mut dyn Write) {
             writeln!(out, "C05 i2n {} {} {} {} => {}", s, want, req, desc.encode(), o).unwrap();
         }
     }
+    // ---- layer order at the thresholds of sort / rotate implementations: independent writer -> norad
+    {
+        let cases: Vec<(u64, String, String, PV)> =
+            layer_order_cases(&mut rng, tier == "thorough").into_iter().map(|dsc| (rng.next() >> 1, "-".to_string(), "all".to_string(), dsc)).collect();
+        let obs = run_i2n(&cases, &scratch);
+        for ((s, want, req, desc), o) in cases.iter().zip(obs) {
+            writeln!(out, "C05 i2n {} {} {} {} => {}", s, want, req, desc.encode(), o).unwrap();
+        }
+    }
+    // ---- the same trees loaded and written back (independent writer / norad-written and re-ordered by hand)
+    {
+        let mut cases = Vec::new();
+        for (j, dsc) in layer_order_cases(&mut rng, tier == "thorough").into_iter().enumerate() {
+            let kind = if j % 2 == 0 { "i" } else { "r" };
+            cases.push((kind.to_string(), rng.next() >> 1, dsc, Vec::new()));
+        }
+        let obs = run_les(&cases, &scratch);
+        for ((kind, sd, desc, _), o) in cases.iter().zip(obs) {
+            writeln!(out, "C05 les {} {} {} - => {}", kind, sd, desc.encode(), o).unwrap();
+        }
+    }
     // ---- load, edit with clashing names, save, independent reader
-    let mut todo = if tier == "thorough" { 8_000 } else { 500 };
+    let mut todo = if tier == "thorough" { 8_000 } else { 400 };
     while todo > 0 {
         let k = todo.min(batch);
         todo -= k;
         let mut cases = Vec::new();
         for _ in 0..k {
-            let kind = if rng.chance(1, 2) { "n" } else { "i" };
+            let kind = *rng.pick(&["n", "n", "i", "i", "i", "r"]);
             let sd = rng.next() >> 1;
             let mut desc = gen_desc(&mut rng, kind == "n", "", false);
             if kind == "i" && rng.chance(2, 3) {
